@@ -1,7 +1,7 @@
 """C07 - alternatives are exclusive and chosen by what the user typed."""
 from vlib import *
 import defs as D, linegen, cmdline_sig
-from cmdline_check import run_cmdline_property
+from cmdline_check import run_cmdline_property, run_tree_groups, merge_cov
 
 
 def families(tier):
@@ -19,10 +19,13 @@ def run(v):
     cov = run_cmdline_property(v, families(v.tier), None, replay_cfg="MC_GroupLine_replay.cfg", module="MC_GroupLine",
                                signature=cmdline_sig.signature, ledger_every=(6 if v.tier == "quick" else 1), trace_module="GroupLineTrace",
                                driver={"defs": big, "n": 15000 if v.tier == "quick" else 300000, "gen": gen})
+    q = v.tier == "quick"
+    cov = merge_cov(cov, run_tree_groups(v, SEED + 780, 10 if q else 50, 4 if q else 5, 1500 if q else 12000, ("alt",),
+                                         cmdline_sig.signature, ledger_every=3 if q else 1), "tree_groups")
     cov["rule"] = ("choices over 2..4 branches drawn from {req_flag, argument, two-item groups with optional members} under "
                    "bare/optional/many/some, next to other options and positionals; all lines up to maxlen in every order; "
                    "AltExclusive and the greedy-leftmost denotation checked/used by TLC (GroupLine.tla); subcommand "
-                   "alternatives are covered by the C08 families")
+                   "alternatives are covered by the C08 families; the same choices inside a subcommand (TreeLine.tla)")
     cov["exhaustive"] = True
     return v.finish("model_checking", cov, ["branches have disjoint names (the property's precondition)"])
 
